@@ -440,7 +440,7 @@ def C11_legacy_gets_reply_full : Prop :=
     (∃ it ∈ p.items, ∃ c ∈ it.cands, suppresses (unionKnown (h.lis.deferredOf addr ++ [p])) c = false) →
     ∃ id nq a b, Out.ucast addr port id nq a b ∈ r.outs
 
-/-- **What holds (finding D24).**  … provided the datagram is not a byte-identical repeat (< 1 s) of the datagram the listener saw
+/-- **What holds (finding C11-r2a).**  … provided the datagram is not a byte-identical repeat (< 1 s) of the datagram the listener saw
 last (`Listener.repeats`: the duplicate guard compares the bytes only, not the source).  The block is any accepted block
 (`h.step … = .ok r`: the loop facts), from any host state; the reply carries the id of the first packet of the query (the deferred
 ones of this address first) and the candidate among its answers. -/
@@ -471,7 +471,7 @@ theorem C11_legacy_gets_reply_partial (h : Host) (t : Int) (addr port dataId siz
   have hne : qa.ucast.isEmpty = false := Dict.isEmpty_false_of_mem hu
   simp [immediateOuts, hne, hus, GenFacts.ans_echo_questions]
 
-/-- the witness of D24: resolver 1 (address id 1, port 40000) asked 10 ms ago; resolver 2 (address id 2, port 40001) sends the same
+/-- the witness of C11-r2a: resolver 1 (address id 1, port 40000) asked 10 ms ago; resolver 2 (address id 2, port 40001) sends the same
 bytes (datagram id 7) — a single PTR question with a candidate answer — and the host sends nothing -/
 def d24Pkt : Pkt := { dataId := 7, now := 1010, id := 0, flags := 0, numAuth := 0, nq := 1, q0type := 12,
                       items := [{ qu := false, cands := [{ id := 5, ttl := 4500, adds := [] }] }], known := [] }
@@ -494,7 +494,72 @@ theorem C11_legacy_gets_reply_refuted : ¬ C11_legacy_gets_reply_full := by
 /-- … and the guard is what drops it: the witness is a repeat -/
 example : d24Host.lis.repeats 1010 7 = true := by decide
 
-/-! ### finding D25: deferral is keyed by the address alone -/
+/-! ### a QU question is owed its reply, whatever arrived before -/
+
+/-- "the last message had a QU question" is a fact about the stored bytes: if the datagram at hand has the bytes the listener stored
+last, the stored flag is this datagram's (`hasQu` is computed from the bytes) -/
+def Listener.LastCoherent (l : Listener) (dataId : Nat) (hasQu : Bool) : Prop := l.lastData = some dataId → l.lastMsgQu = some hasQu
+
+instance (l : Listener) (dataId : Nat) (hasQu : Bool) : Decidable (l.LastCoherent dataId hasQu) := by
+  unfold Listener.LastCoherent; infer_instance
+
+/-- a query with a QU question is never taken for a repeat -/
+theorem qu_never_repeats (l : Listener) (t : Int) (dataId : Nat) (hc : l.LastCoherent dataId true) : l.repeats t dataId = false := by
+  unfold Listener.repeats Gen.Reply.l_duplicate
+  by_cases hd : l.lastData = some dataId
+  · simp [hd, hc hd]
+  · have : (l.lastData == some dataId) = false := by simpa using hd
+    simp [this]
+
+/-- **A query with a QU question gets its reply — no exception** (the duplicate guard exempts it, so this holds however many copies of
+the datagram arrive and from wherever): an untruncated query with a QU question that has an unsuppressed candidate is answered in its
+block, by the unicast datagram to its address and port, or — when the record was not multicast within a quarter of its TTL and the
+source port is 5353 — by the multicast sent at once. -/
+theorem C11_qu_gets_reply (h : Host) (t : Int) (addr port dataId size : Nat) (p : Pkt) (seen : SeenMap) (draws : List Int) (r : StepOut)
+    (hs : h.step (.rx t addr port dataId size true (.query p) seen draws) = .ok r) (hsize : size ≤ 8966) (htc : p.truncated = false)
+    (hcoh : h.lis.LastCoherent dataId true)
+    {it : QItem} (hit : it ∈ p.items) (hqu : it.qu = true) {c : Cand} (hc : c ∈ it.cands)
+    (hsup : suppresses (unionKnown (h.lis.deferredOf addr ++ [p])) c = false) :
+    ∃ first qa, (h.lis.deferredOf addr ++ [p]).head? = some first ∧
+      asyncResponse (h.lis.deferredOf addr ++ [p]) (Gen.Reply.ucast_source port) seen = some qa ∧
+      ((c.id ∈ qa.ucast.keys ∧ Out.ucast addr port first.id (if port ≠ 5353 then first.nq else 0) qa.ucast.keys (additionalsOf qa.ucast) ∈ r.outs) ∨
+       (c.id ∈ qa.mcastNow.keys ∧ Out.ofMcast qa.mcastNow ∈ r.outs)) := by
+  obtain ⟨a, hd, hp⟩ := step_decide hs
+  obtain ⟨lis, rfl⟩ := decide_plain_query hd hsize (qu_never_repeats _ _ _ hcoh) htc
+  obtain ⟨rest, ha⟩ := perform_answer hp
+  have hpm : p ∈ h.lis.deferredOf addr ++ [p] := by simp
+  obtain ⟨qa, hqa⟩ := asyncResponse_isSome (Gen.Reply.ucast_source port) seen hpm hit
+  have hqa' : asyncResponse (h.lis.deferredOf addr ++ [p]) (Gen.Reply.ucast_source port)
+      (Ev.rx t addr port dataId size true (.query p) seen draws).seen = some qa := hqa
+  have hkey : c.id ∈ (answerSet (unionKnown (h.lis.deferredOf addr ++ [p])) it).keys := answerSet_has _ _ _ hc hsup
+  obtain ⟨first, hf, hu, _⟩ := C11_unicast_reply ha hqa'
+  obtain ⟨first', hf', ho, _⟩ := assemble_spec ha hqa'
+  have hm : qa.mcastNow.isEmpty = false → Out.ofMcast qa.mcastNow ∈ r.outs := by
+    intro hne; rw [ho]; simp [immediateOuts, hne]
+  refine ⟨first, qa, hf, hqa, ?_⟩
+  by_cases hport : port = 5353
+  · subst hport
+    have hus : Gen.Reply.ucast_source (5353 : Int) = false := by
+      have := (not_congr (GenFacts.ucast_source 5353)).mpr (by simp); simpa using this
+    obtain ⟨last, hl⟩ : ∃ last, (h.lis.deferredOf addr ++ [p]).getLast? = some last := ⟨p, by simp⟩
+    have hqa0 := hqa
+    rw [show ((5353 : Nat) : Int) = (5353 : Int) from rfl, hus] at hqa0
+    obtain ⟨q1, q2, _⟩ := query_qu_us hqa0 hpm hit hqu c.id hkey hl
+    cases hw : withinQuarter (seen.get c.id) last.now
+    · right
+      exact ⟨q2 hw, hm (Dict.isEmpty_false_of_mem (q2 hw))⟩
+    · left
+      exact ⟨q1 hw, hu (Dict.isEmpty_false_of_mem (q1 hw))⟩
+  · left
+    have hus : Gen.Reply.ucast_source (port : Int) = true := (GenFacts.ucast_source _).mpr (by omega)
+    have hqa0 := hqa
+    rw [hus] at hqa0
+    have hin := (query_legacy_us hqa0 hpm hit c.id hkey).1
+    exact ⟨hin, hu (Dict.isEmpty_false_of_mem hin)⟩
+
+example : ({} : Host).lis.LastCoherent 7 true := by decide
+
+/-! ### finding C11-r2b: deferral is keyed by the address alone -/
 
 /-- every packet deferred for `addr` was received from source port `port` (`srcPort` names, for each datagram, the port it came from) -/
 def Listener.DeferredFromPort (l : Listener) (srcPort : Nat → Nat) (addr port : Nat) : Prop :=
@@ -511,7 +576,7 @@ def C11_reply_own_query_full : Prop :=
     ∀ a q id nq x y, Out.ucast a q id nq x y ∈ r.outs →
       ∃ pk ∈ h.lis.deferredOf addr ++ [p], pk.id = id ∧ srcPort pk.dataId = port
 
-/-- **What holds (finding D25).**  … provided every packet held for the address came from the same source port (the listener keys
+/-- **What holds (finding C11-r2b).**  … provided every packet held for the address came from the same source port (the listener keys
 `_deferred` and `_timers` by the address string alone): then the reply echoes the id of the *first* packet of this querier's train. -/
 theorem C11_reply_own_query_partial (srcPort : Nat → Nat) (h : Host) (t : Int) (addr port dataId size : Nat) (hasQu : Bool) (p : Pkt)
     (seen : SeenMap) (draws : List Int) (r : StepOut)
@@ -561,7 +626,7 @@ theorem C11_reply_own_query_partial (srcPort : Nat → Nat) (h : Host) (t : Int)
         · cases hm
         · simp [Out.ofMcast] at hm
 
-/-- the witness of D25: a truncated packet from port 40000 (datagram 1, id 7) is being held for address 1; the plain query from port
+/-- the witness of C11-r2b: a truncated packet from port 40000 (datagram 1, id 7) is being held for address 1; the plain query from port
 40001 (datagram 2, id 9) is answered — to port 40001 — with id 7 -/
 def d25Held : Pkt := { dataId := 1, now := 1000, id := 7, flags := 512, numAuth := 0, nq := 1, q0type := 12,
                        items := [{ qu := false, cands := [{ id := 5, ttl := 4500, adds := [] }] }], known := [] }
